@@ -7,6 +7,7 @@ import Driver.Decode
 import Driver.Http
 import Driver.Faults
 import Driver.Parse
+import Driver.Rx
 /-!
   Line-protocol driver.  One request per line:
 
@@ -75,6 +76,14 @@ def handleFault (args obs : List String) : String :=
   | none => s!"X {p}"
   | some m => if m == Faults.project obs then (if p == "1" then "A" else s!"V 0 {m}") else s!"D {p} {m}"
 
+/-- `rxpf` lines: the model predicts some fields of the observation (the tree is taken from it) -/
+def handleRx (args obs : List String) : String :=
+  let (m, proj, ok) := Rx.judgeLine args obs
+  let p := if ok then "1" else "0"
+  match m with
+  | none => s!"X {p}"
+  | some m => if m == proj then (if ok then "A" else s!"V 0 {m}") else s!"D {p} {m}"
+
 def handle (line : String) : String :=
   let toks := (line.splitOn " ").filter (· != "")
   match toks with
@@ -82,6 +91,7 @@ def handle (line : String) : String :=
   | eng :: rest =>
     let (args, obs) := splitArrow rest
     if eng == "fault" then handleFault args obs else
+    if eng == "rxpf" then handleRx args obs else
     let p := if engineJudge eng args obs then "1" else "0"
     match engineModel eng args with
     | none => s!"X {p}"
